@@ -233,12 +233,29 @@ func RunC09(t *testing.T, tape *Tape) *Outcome {
 			}
 		}
 	}
+	// a goroutine of the script that dies with a panic would take a real process
+	// down: no program of the family panics
+	for _, tk := range tasks {
+		if !tk.Client && tk.Panic != nil {
+			msg := fmt.Sprint(tk.Panic)
+			if len(msg) > 160 {
+				msg = msg[:160]
+			}
+			o.addV("C09", "I0", "I0 task-panic", "task %s died with a panic: %s", tk.Name, msg)
+		}
+	}
 	if !r.Cancelled.Load() {
-		// fault-free run (or the program ended before k): nothing to judge here
-		// beyond "the generated program is accepted".
+		// fault-free run (or the program ended before k): the program must simply
+		// be accepted and run without error.
 		if ret.done.Load() && ret.err != nil {
 			if _, isPanic := ret.err.(interp.Panic); !isPanic {
 				o.Inconclusive = "fault-free run failed: " + ret.err.Error()
+			} else {
+				msg := ret.err.Error()
+				if len(msg) > 160 {
+					msg = msg[:160]
+				}
+				o.addV("C09", "I0", "I0 fault-free-run-panic", "%s of a program of the family failed without any cancellation: %s", entryName[entry], msg)
 			}
 		}
 		return o
